@@ -21,7 +21,8 @@ PARTIAL = [
     "tiling_inside, tiling_exactly_once, tiling_interiors_disjoint, tiling_unit_square: every point of the rectangle spanned by the grid "
     "lines - [0,1]^2 when the spacing divides size-1 - lies in a closed face, no face leaves it, a point interior to a face lies in no "
     "other face); when the spacing does NOT divide size-1 the grid (hence the mesh) ends before parameter 1: the theorems then speak "
-    "about [0,(nu-1)u_jump]x[0,(nv-1)v_jump], as the code does; the quad mesh has vertex parameters (C15.quad_vertex_parameters*) but "
+    "about [0,(nu-1)u_jump]x[0,(nv-1)v_jump], as the code does; the quad mesh has vertex parameters (C15.quad_vertex_parameters*, "
+    "for sizes >= 2 in both directions: with a size of 1 the repaired make_quad_mesh raises ZeroDivisionError, driver ops quad / quaduv answer ERR) but "
     "no point-set tiling theorem of its own (its cells are the grid cells)",
     "vertex positions: C15.vertex_is_surface_point states for the model functions makeTriangleMesh, surfaceGrid (evalpts on linspace(0,1,.)) and surfacePoint together that "
     "the evaluated point a vertex copies (index src) IS the surface point at the parameters (uv) the vertex stores - domain [0,1]^2 only; that Surface.tessellate re-evaluates "
